@@ -127,6 +127,31 @@ def main():
         out["per"] = per
         out["untouched"] = {f: bool(((Xt[f] == X[f]) | (Xt[f].isna() & X[f].isna())).all())
                             for f in feats if f not in obj.features and f in Xt.columns}
+        # probe frame: unseen values are injected into the qualitative features that have a default
+        # group; the injected values are KNOWN modalities of the other qualitative columns
+        Xp = build_frame(case, cfg["columns"])
+        vocab = sorted({v for n_, t in case["types"].items() if t != "quant"
+                        for v in decs(case["X"][n_]) if isinstance(v, str)})
+        injected = []
+        for f in sorted(obj.features):
+            if case["types"][f] == "quant" or not vocab:
+                continue
+            g = obj.values_orders[f]
+            if obj.str_default in g.values():
+                col = list(Xp[f])
+                for i in range(len(col)):
+                    if i % 7 == 3:
+                        col[i] = vocab[(i // 7) % len(vocab)]
+                Xp[f] = pd.Series(col, dtype=object)
+                injected.append(f)
+        out["probe_injected"] = injected
+        try:
+            Xpt = obj.transform(Xp)
+            out["probe"] = {f: encs(list(Xpt[f])) for f in obj.features}
+        except AssertionError:
+            out["probe"] = "assert"
+        except Exception as e:  # noqa: BLE001
+            out["probe"] = "internal:" + type(e).__name__
     except AssertionError as e:
         out["fit"] = "assert"
         out["error"] = str(e)[:200]
